@@ -31,6 +31,9 @@ func raceKey(blk string) (key string, frames []string) {
 	return strings.Join(k, "<"), frames
 }
 
+// c20Setup is executed once per container before the goroutines start: the todo service gets its real, contextual definition.
+var c20Setup = probe.Op{Op: "overridesvc", Name: "lateCtx", Ctor: "fixt/pa.New", Scope: "contextual", Deps: []probe.DepSpec{{Dep: "value", T: "string", V: "late"}}}
+
 func checkC20(c *Ctx) error {
 	confN, G, reps, rounds := c.Pick(24, 160), c.Pick(32, 64), c.Pick(12, 30), c.Pick(3, 8)
 	c.Rule = fmt.Sprintf("%d seeded configurations from the behavioural generator (race-free user code: no service is a package-level variable) x %d goroutines x %d operations each x %d repetitions with different seeds, mixed Get / GetParam / GetTaggedBy / getter / GetInContext on G/4 shared contexts, released from one barrier in seeded random order, fixtures in stress mode (Gosched + 0-200us sleeps inside constructors, methods, decorators and parameter functions), probe built with -race. Oracles: zero race-detector reports; per-symbol invocation counters equal to those of the reference container executing the same multiset of operations sequentially (so every shared service is constructed and every parameter evaluated at most once); one serial per shared service; contextual serials never shared between two attached contexts. distinct = distinct (configuration, round); non-trivial = >=2 goroutines touched the same shared or contextual service", confN, G, reps, rounds)
@@ -97,6 +100,11 @@ func checkC20(c *Ctx) error {
 			cfg.Service{Name: "viaField", Constructor: cfg.P(`"fixt/pa".New`), Fields: []cfg.KV{{K: "F1", V: cfg.Str("@ctxdep")}}, Getter: cfg.P("GetViaField"), Type: cfg.P(`*"fixt/pa".Obj`), MustGetter: cfg.P(true)},
 			cfg.Service{Name: "viaCall", Constructor: cfg.P(`"fixt/pa".New`), Calls: []cfg.Call{{Method: "Set", Args: []cfg.Val{cfg.Str("@viaTagged")}}}, Getter: cfg.P("GetViaCall"), Type: cfg.P(`*"fixt/pa".Obj`)})
 		conf.Decorators = append(conf.Decorators, cfg.Decorator{Tag: "ctxdectag", Decorator: `"fixt/pa".DecSame`, Args: []cfg.Val{cfg.Str("@ctxdep")}})
+		// a placeholder that the application replaces, before any concurrent use, by a CONTEXTUAL definition (the documented
+		// OverrideService workflow), and a dependant without a scope of its own: it is contextual from then on
+		conf.Services = append(conf.Services,
+			cfg.Service{Name: "lateCtx", Todo: cfg.P(true)},
+			cfg.Service{Name: "needsLate", Constructor: cfg.P(`"fixt/pa".New`), Args: []cfg.Val{cfg.Str("@lateCtx")}, Getter: cfg.P("GetNeedsLate"), Type: cfg.P(`*"fixt/pa".Obj`)})
 		// operation alphabet of this configuration
 		var alpha []probe.Op
 		for _, s := range conf.Services {
@@ -154,7 +162,7 @@ func checkC20(c *Ctx) error {
 			seed := c.Seed*977 + int64(i*100+rd)
 			pl.flat = append(pl.flat, flat)
 			pl.seeds = append(pl.seeds, seed)
-			ops = append(ops, probe.Op{Op: "new"}, probe.Op{Op: "stress", G: G, Reps: reps, Seed: seed, Ops: flat})
+			ops = append(ops, probe.Op{Op: "new"}, c20Setup, probe.Op{Op: "stress", G: G, Reps: reps, Seed: seed, Ops: flat})
 		}
 		id := idOf(i)
 		plans[id] = pl
@@ -225,7 +233,7 @@ func checkC20(c *Ctx) error {
 				c.Violate("panic-under-concurrency:"+sigWords(p), fmt.Sprintf("unit %s round %d: %s", u.ID, rd, p), files)
 			}
 			// expected counters: the reference container executes the same multiset sequentially
-			seq := append(append([]probe.Op{}, pl.env...), probe.Op{Op: "new"})
+			seq := append(append([]probe.Op{}, pl.env...), probe.Op{Op: "new"}, c20Setup)
 			seq = append(seq, pl.flat[rd]...)
 			seq = append(seq, probe.Op{Op: "counts"})
 			exp := RunModel(u.Cfg, seq, nil)
@@ -290,7 +298,11 @@ func checkC20(c *Ctx) error {
 					continue
 				}
 				delete(ids, 0) // zero values carry no identity
-				switch ref.EffectiveScope(u.Cfg, g, svc) {
+				eff := ref.EffectiveScope(u.Cfg, g, svc)
+				if svc == "lateCtx" || svc == "needsLate" {
+					eff = "contextual" // by the definition registered at run time
+				}
+				switch eff {
 				case "shared":
 					if len(ids) > 0 {
 						contended = true
